@@ -67,7 +67,7 @@ def main():
     json.dump(m, open(os.path.join(ROOT, "MANIFEST.json"), "w"), indent=1)
     print("wrote MANIFEST.json:", len(checks), "checks,", len(na), "not claimed")
 
-NOT_YET = {}
+NOT_YET = {"C16": "the monitor needs rustc on generated code (corpus crate + runner with a conformance relation); runtime monitoring applies and the design is in DESIGN.md, but the check is not built yet, so nothing is claimed"}
 ENGINES = [
  {"name": "codec-lab", "path": "harness/src/codec", "serves_properties": ["C01", "C07", "C08", "C13", "C14"],
   "kind_free_text": "generators + independent reference encoder/decoder/skipper for the value wire format, byte mutators, counting allocator, panic capture; drives the real aldrin-core codec"},
@@ -118,6 +118,18 @@ CLAIMED["C19"] = ("client-rig", "exploration",
    RIG_NOTE + " Ground truth = the Object/Service values the actors hold at quiescence.", "runtime convergence-to-ground-truth oracle over randomized schedules", "DESIGN.md §4 C19")
 ENGINES.append({"name": "client-rig", "path": "harness/src/bus/clientrig.rs", "serves_properties": ["C05", "C06", "C15", "C19"],
   "kind_free_text": "real aldrin clients + broker + connection tasks on the deterministic executor in random mode; transport with FIFO bounds, fault injection at the k-th ready operation (error / EOF / half-open) and protocol-version downgrade; program generator over the public client API; in-poll hang watchdog"})
+
+CLAIMED["C17"] = ("schema-lab", "exploration",
+   "Runtime monitoring of the whole schema front end (Parser::parse with resolvable, missing, failing and cyclic imports; Renderer::render of every issue in four style/width combinations; Formatter; Generator::rust with and without introspection when error-free) on token soups over the grammar's alphabet, byte/line mutations of every *.aldrin file of the repository and generated schemas with adversarial doc comments and string constants, twice each: panic monitor, abort attribution through child processes, equality of the diagnostics of both runs as multisets; fixed probes for underscore-only identifiers and for nesting depths 50..20000 in processes of their own. Held on the inputs observed.",
+   "Unbounded type-expression nesting is a recorded known finding (stack exhaustion); bounded nesting must pass.", "runtime panic/abort monitor + repeatability oracle over generated, mutated and adversarial inputs", "DESIGN.md §4b C17")
+CLAIMED["C18"] = ("schema-lab", "exploration",
+   "Runtime differential monitoring of the formatter: for schemas from a grammar-directed generator laid out with arbitrary legal whitespace, CR/LF mixes, blank lines, comments, doc strings and attributes in every position the grammar admits, and for every repository schema, the formatted text must parse without syntax error, the projection of the AST through the public accessors (definitions in order; names, ids, types, attributes, comment and doc lines; imports as a sorted set) must be unchanged, the multiset of diagnostic titles must be unchanged and formatting again must be the identity. Held on the schemas observed.",
+   "The projection is the harness's reading of 'the same schema'; diagnostics are compared by their title line (positions aside).", "runtime differential/metamorphic oracle (projection equality, idempotence)", "DESIGN.md §4b C18")
+CLAIMED["C20"] = ("schema-lab", "exploration",
+   "Runtime metamorphic monitoring of the real TypeId::compute on hand-built IR fed through 64 const-generic Introspectable slots (random, recursive and mutually recursive layouts over all built-ins and generics): documentation edits, reference visiting order, insertion order and slot renumbering must keep the id, every single semantic edit of a reachable node (50 kinds: names, schema, ids, required flag, referenced types, fallbacks, uuid, version, payload presence, array length, transitive) must change it; Introspection records must round-trip through serialization and their references must resolve. Held on the layouts observed.",
+   "Sampled 'iff'. Agreement of the derive/service macros and the code generator with hand-built IR needs compiled generated code (C16's corpus) and is not part of this check's verdict.", "runtime metamorphic oracle over the real hash function", "DESIGN.md §4b C20")
+ENGINES.append({"name": "schema-lab", "path": "harness/src/schema", "serves_properties": ["C17", "C18", "C20"],
+  "kind_free_text": "grammar-directed schema generator (own abstract schema + layout randomiser), AST projection through public accessors, token-soup and file-mutation generators, const-generic IR slots for the type-id function"})
 
 if __name__ == "__main__":
     main()
